@@ -189,6 +189,9 @@ def shard_small(spec, R):
                 ch = [{"time": 1, "y": -1, "x": -1}, {"time": -1, "y": max(1, zones.shape[0] // 2), "x": -1}, {"time": 1, "y": max(1, zones.shape[0] // 3), "x": max(1, zones.shape[1] // 2)}][H.pick(it, 6, 3)]
                 dd = da.chunk(ch)
                 zz = zd.chunk({"y": ch["y"], "x": ch["x"]}) if H.pick(it, 7, 2) else zd
+                if H.pick(it, 9, 2):
+                    zz = zz.transpose("x", "y")  # zones stored in the other order than the cube's raster dimensions (matched by name)
+                    R.count("accessor_dask_zones_transposed")
                 try:
                     lazy = dd.hdc.zonal.mean(zz, ids, dtype=np.dtype(odt).name, dim_name="zz")
                     with dask.config.set(scheduler="threads" if H.pick(it, 8, 2) else "synchronous"):
